@@ -18,6 +18,8 @@ THEOREMS = [
     "C07.detect_partial",
     "C07.detect_counterexample",
     "C07.detect_partial_deferring",
+    "C07.detect_dropTableRefs_partial",
+    "C07.mem_diff_dropRefs",
     "C07.type_family_detected",
     "C07.type_family_detected_groups",
     "C07.type_synonyms_quiet",
@@ -41,6 +43,7 @@ THEOREMS = [
     "C07.detect_dropFk",
 ]
 PARTIAL = {
+    "C07.detect_dropTableRefs_partial": "proved for the variant that keeps the referencing columns (dropCols = false); the variant that also drops them (remove_column ops next to remove_fk) is judged by the implementation-side oracle and the model correspondence only",
     "C07.detect_partial": "hypothesis SchemaOk cfg on the base schema (compared defaults plain, compared types reflect by name); without it the statement is refuted by detect_counterexample (F9: an untouched column with server_default=\"it's\" is reported next to any change)",
     "C07.detect_changeDefault": "'the default changed' is the metadata-side normal form changedDefault; changed_of_value derives it from Spec.Diff.defaultValue (string value / SQL-unquoted stored expression) differing, for plain defaults whose expression text contains no double quote; adding / removing a default always counts",
 }
